@@ -251,12 +251,8 @@ Inductive cres :=
 Global Instance cres_eq_dec : EqDecision cres.
 Proof. solve_decision. Defined.
 
-Definition compact (v : variant) (c : ccfg) (now sz : N) (w : pworld) : pworld * cres :=
-  let '(w1, r1) := load_or_create w 0 in
-  match r1 with
-  | RCrash => (w1, CCrash)
-  | RErr => (w1, CErr)
-  | ROk m =>
+(* compact() after its manifest load: everything is derived from the snapshot [m] *)
+Definition compact_rest (v : variant) (c : ccfg) (now sz : N) (m : manifest) (w1 : pworld) : pworld * cres :=
     let sel := select c m in
     if N.of_nat (length sel) <? cc_min c then (w1, CNothing) else
     let cutoff := now - cc_ttl c in               (* saturating_sub *)
@@ -305,7 +301,14 @@ Definition compact (v : variant) (c : ccfg) (now sz : N) (w : pworld) : pworld *
             end
           end
         end
-    end
+    end.
+
+Definition compact (v : variant) (c : ccfg) (now sz : N) (w : pworld) : pworld * cres :=
+  let '(w1, r1) := load_or_create w 0 in
+  match r1 with
+  | RCrash => (w1, CCrash)
+  | RErr => (w1, CErr)
+  | ROk m => compact_rest v c now sz m w1
   end.
 
 (* ---------- recovery.rs ---------- *)
@@ -476,3 +479,31 @@ Fixpoint run_incarnations (c : pcfg) (rid : N) (st0 : store)
       let '(st, conf) := run_incarnations c rid (w_store (s_w s)) r in
       (st, ps_conf (s_p s) ++ conf)
   end.
+
+(* ---------- predicates used by the statements of C11 / C13 ---------- *)
+(* an update = (key, value); replay merges updates into a node state in list order *)
+Notation upd := (list N * rvalue)%type (only parsing).
+Definition merge_into (s : kv) (k : list N) (v : rvalue) : kv :=
+  <[k := match s !! k with Some l => rv_merge l v | None => v end]> s.
+Definition replay (us : list (list N * rvalue)) (s : kv) : kv :=
+  fold_left (λ s p, merge_into s p.1 p.2) us s.
+Definition upd_of (d : delta) : list N * rvalue := (d_key d, d_val d).
+
+(* C07's side conditions, per key: the updates of one key (and the checkpoint entry of
+   that key) are of one CRDT kind and pairwise Compatible (no stamp used twice) *)
+Definition coherent (us : list (list N * rvalue)) : Prop :=
+  ∀ a b, In a us → In b us → a.1 = b.1 →
+    kind (rv_crdt a.2) = kind (rv_crdt b.2) ∧ Compatible a.2 b.2.
+
+Definition seg_deltas (st : store) (s : seginfo) : list delta :=
+  match st !! si_key s with Some (Whole (OSeg ds)) => ds | _ => [] end.
+(* everything the listed segments hold *)
+Definition listed_updates (st : store) (m : manifest) : list (list N * rvalue) :=
+  map upd_of (flat_map (seg_deltas st) (m_segs m)).
+(* Manifest::verify_invariants, third clause: no listed segment at or below the checkpoint *)
+Definition ck_covers (m : manifest) : Prop :=
+  match m_ck m with
+  | Some ci => ∀ s, In s (m_segs m) → ci_last ci < si_id s
+  | None => True
+  end.
+Definition ck_state (r : recovered) : kv := default ∅ (r_ck r).
